@@ -358,10 +358,24 @@ def default_witness(prop):
     def run(failed, ctx):
         import subprocess
         cmd = f"cd {wdir} && CARGO_NET_OFFLINE=true cargo run -q --offline --bin {prop.lower()}"
+        import signal
+        # own process group, so that a probe that loops forever on changed code is killed together with cargo
+        proc = subprocess.Popen(cmd, shell=True, stdout=subprocess.PIPE, stderr=subprocess.PIPE, text=True, start_new_session=True)
         try:
-            p = subprocess.run(cmd, shell=True, capture_output=True, text=True, timeout=600)
+            so, se = proc.communicate(timeout=int(os.environ.get("VERIF_PROBE_TIMEOUT", "600")))
         except subprocess.TimeoutExpired:
-            return {"found": False, "cmd": cmd, "error": "witness probe timed out"}
+            try:
+                os.killpg(proc.pid, signal.SIGKILL)
+            except Exception:
+                pass
+            proc.communicate()
+            # on the unchanged tree every probe finishes within seconds: ten minutes without an answer is a routine that does not terminate
+            return {"found": True, "cmd": cmd, "failures": [f"witness probe {prop.lower()} did not finish within its time limit (600 s by default; seconds on the unchanged tree): a routine it calls does not terminate on the probe's inputs"]}
+
+        class _P:
+            pass
+        p = _P()
+        p.stdout, p.stderr, p.returncode = so, se, proc.returncode
         last = [l for l in p.stdout.splitlines() if l.startswith("{")]
         out = {"found": False, "cmd": cmd, "exit": p.returncode}
         if last:
